@@ -539,12 +539,46 @@ def _formatted(repo, rep):
     wh = L.where(f)
     calls = [n for n in ast.walk(f.node) if isinstance(n, ast.Call)
              and src(n.func) == "type" and len(n.args) == 3]
-    ok = bool(calls) and src(calls[0].args[1]) == "(cls, base)"
+    bases = L.inline_locals(f.node, calls[0].args[1]) if calls else None
+    alts = []
+    if isinstance(bases, ast.IfExp):
+        alts = [(src(bases.test).replace(" ", ""), src(bases.body),
+                 src(bases.orelse))]
+        plain = src(bases.orelse) if "issubclass" in src(bases.test) and \
+            not src(bases.test).startswith("not ") else src(bases.body)
+    else:
+        plain = src(bases) if bases is not None else ""
+    ok = bool(calls) and plain == "(cls, base)"
     rep.check(ok, "R12.5", site, "the new class derives from (original "
               "class, base) in this order: isinstance(original class) holds "
               "and the original class wins method resolution",
               construct="bases", where=wh,
               detail=src(calls[0].args[1]) if calls else "no type() call")
+    # (cls, base) cannot be linearised when cls is an ancestor of base:
+    # render() passes RenderError, a subclass of Exception, and an
+    # expression may raise a plain Exception (or a RenderError) -- that case
+    # needs bases (base,), or the except TypeError fallback silently returns
+    # the undecorated class (no expression, no position in the message)
+    r = repo.func(BT + "render")
+    passed = [src(c.args[3]) for c in ast.walk(r.node)
+              if isinstance(c, ast.Call) and
+              src(c.func) == "create_formatted_exception" and len(c.args) > 3]
+    base_cls = repo.cls("chameleon.exc." + passed[0]) if passed else None
+    anc = set()
+    if base_cls is not None:
+        own, ext = L.class_closure(repo, base_cls)
+        anc = set(ext)
+    handled = any(isinstance(n, ast.Call) and src(n.func) == "issubclass"
+                  and [src(a) for a in n.args] == ["base", "cls"]
+                  for n in ast.walk(f.node)) and any(
+                      "(base,)" in src(n).replace(" ", "")
+                      for n in ast.walk(f.node) if isinstance(n, ast.Tuple))
+    rep.check(not ("Exception" in anc) or handled, "R12.5", site,
+              "an original class that is an ancestor of the mixin base (a "
+              "plain Exception, the base itself) gets bases (base,): the "
+              "decorated class always exists", construct="bases-linearisable",
+              where=wh, detail="render() passes %s (ancestors %s); no "
+              "issubclass(base, cls) case" % (passed, sorted(anc)))
     text = L.text(f.node)
     rep.check("BaseException.__init__(inst, *exc.args)" in text, "R12.5",
               site, "the original arguments are copied", construct="args",
